@@ -241,6 +241,21 @@ func (w *World) RunCell(n int, c Cell, r *rand.Rand) (Line, error) {
 	}
 	q := url.Values{}
 	if v, ok := tok(c.Cell.St); ok {
+		if c.Cell.St == c.Cell.Ck && (c.Cell.St[0] == "A" || c.Cell.St[0] == "B" || c.Cell.St[0] == "X") && r.Intn(2) == 0 {
+			// the cookie's own ciphertext, respelled (line breaks a lenient base64 decoder skips): still the same
+			// sealing, so it must not count as "a different ciphertext" of the flow record
+			switch r.Intn(4) {
+			case 0:
+				v += "\n"
+			case 1:
+				v += "\r\n"
+			case 2:
+				v = "\n" + v
+			default:
+				k := 1 + r.Intn(len(v)-1)
+				v = v[:k] + "\n" + v[k:]
+			}
+		}
 		q.Set("state", v)
 	}
 	var cookies []*http.Cookie
